@@ -24,12 +24,12 @@ func init() { subcommands["proto"] = protoCmd }
 // ---- scripted leader rotation ------------------------------------------------------------------
 type scriptLR struct {
 	n      int
-	script []int // leader of view i+1; beyond the script: round-robin
+	script *[]int // leader of view i+1 (0 = round-robin); shared by all replicas; the heal step rewrites the future part
 }
 
 func (s scriptLR) GetLeader(v hotstuff.View) hotstuff.ID {
-	if i := int(v) - 1; i >= 0 && i < len(s.script) {
-		return hotstuff.ID(s.script[i])
+	if i := int(v) - 1; i >= 0 && i < len(*s.script) && (*s.script)[i] != 0 {
+		return hotstuff.ID((*s.script)[i])
 	}
 	return leaderrotation.ChooseRoundRobin(v, s.n)
 }
@@ -65,6 +65,9 @@ type run struct {
 	fetchOK int // percent of fetches answered
 	healed  bool
 	live    []hotstuff.ID // members of the synchronous quorum after heal
+	script  *[]int
+	fixedLeader int
+	lmode   string
 }
 
 func (r *run) honest() []*hx.Node {
@@ -298,11 +301,15 @@ func (r *run) logByz(what string, by hotstuff.ID, msgs []envelope) {
 func (r *run) topUp() {
 	// a new command of one of two clients goes to EVERY replica (overlapping command sets at different
 	// leaders); a leader is never starved
-	cl := 1 + r.rng.Intn(2)
-	r.nextCmd[cl]++
-	seq := r.nextCmd[cl]
-	for _, m := range r.honest() {
-		m.Submit(&clientpb.Command{ClientID: uint32(cl), SequenceNumber: uint64(seq), Data: []byte{byte(cl), byte(seq), byte(seq >> 8)}})
+	// (several per step: a replica may propose more than once while it runs to quiescence, and a proposer
+	// that finds its cache empty would block the single-threaded driver)
+	for k := 0; k < 4; k++ {
+		cl := 1 + r.rng.Intn(2)
+		r.nextCmd[cl]++
+		seq := r.nextCmd[cl]
+		for _, m := range r.honest() {
+			m.Submit(&clientpb.Command{ClientID: uint32(cl), SequenceNumber: uint64(seq), Data: []byte{byte(cl), byte(seq), byte(seq >> 8)}})
+		}
 	}
 }
 
@@ -554,6 +561,7 @@ func protoCmd(args []string) error {
 	syncSuffix := fs.Bool("heal", false, "end every run with a synchronous suffix (C05)")
 	suffixViews := fs.Int("suffix", 12, "views of the synchronous suffix")
 	noByz := fs.Bool("nobyz", false, "crash faults only (C05)")
+	faultFree := fs.Int("faultfree", 0, "every k-th run is fault-free and synchronous from the start (C05)")
 	_ = fs.Parse(args)
 	o, err := newNDJSON(*out)
 	if err != nil {
@@ -568,29 +576,37 @@ func protoCmd(args []string) error {
 		rs := rss[(ri/len(ns))%len(rss)]
 		f := hotstuff.NumFaulty(n)
 		nb := rng.Intn(f + 1)
+		ff := *faultFree > 0 && ri%*faultFree == 0
+		if ff {
+			nb = 0
+		}
 		byz := map[hotstuff.ID]bool{}
 		for len(byz) < nb {
 			byz[hotstuff.ID(1+rng.Intn(n))] = true
 		}
 		// leader schedule: round-robin, fixed, or scripted (Byzantine leaders included)
-		var script []int
+		script := make([]int, 400)
 		lmode := []string{"rr", "fixed", "script"}[rng.Intn(3)]
+		fixedLeader := 1
+		for byz[hotstuff.ID(fixedLeader)] {
+			fixedLeader++
+		}
 		switch lmode {
 		case "fixed":
-			for i := 0; i < 200; i++ {
-				script = append(script, 1)
+			for i := range script {
+				script[i] = fixedLeader
 			}
 		case "script":
-			for i := 0; i < 200; i++ {
-				script = append(script, 1+rng.Intn(n))
+			for i := range script {
+				script[i] = 1 + rng.Intn(n)
 			}
 		}
-		lrOf := func(cfg *core.RuntimeConfig) leaderrotation.LeaderRotation { return scriptLR{n: n, script: script} }
+		lrOf := func(cfg *core.RuntimeConfig) leaderrotation.LeaderRotation { return scriptLR{n: n, script: &script} }
 		nodes, err := hx.NewNodes(hx.NodeOpts{N: n, Scheme: crypto.NameECDSA, Ruleset: rs, Leader: lrOf, BatchSize: 1})
 		if err != nil {
 			return err
 		}
-		r := &run{o: o, rng: rng, n: n, q: hotstuff.QuorumSize(n), nodes: nodes, byz: byz, lr: scriptLR{n: n, script: script},
+		r := &run{o: o, rng: rng, n: n, q: hotstuff.QuorumSize(n), nodes: nodes, byz: byz, lr: scriptLR{n: n, script: &script}, script: &script, fixedLeader: fixedLeader, lmode: lmode,
 			agg: rs == "fasthotstuff", blockID: map[hotstuff.Hash]int{hotstuff.GetGenesis().Hash(): 0},
 			blocks: map[int]*hotstuff.Block{0: hotstuff.GetGenesis()}, nextCmd: map[int]int{}, fetchOK: 60 + rng.Intn(41)}
 		if *noByz {
@@ -618,7 +634,7 @@ func protoCmd(args []string) error {
 		}
 		sort.Ints(byzList)
 		leaders := []int{}
-		for v := 1; v <= 60; v++ {
+		for v := 1; v <= 400; v++ {
 			leaders = append(leaders, int(r.lr.GetLeader(hotstuff.View(v))))
 		}
 		o.emit(obj{"op": "init", "n": n, "f": f, "q": r.q, "rs": rs, "byz": byzList, "leaders": leaders, "lmode": lmode, "agg": r.agg,
@@ -638,7 +654,7 @@ func protoCmd(args []string) error {
 			pByz = 0
 		}
 		// ---- asynchronous / adversarial phase
-		for s := 0; s < *maxSteps; s++ {
+		for s := 0; s < *maxSteps && !ff; s++ {
 			r.topUp()
 			c := rng.Intn(1000)
 			switch {
@@ -666,7 +682,7 @@ func protoCmd(args []string) error {
 		}
 		// ---- synchronous suffix (C05): a live quorum of honest replicas exchanges all messages before any timer fires
 		if *syncSuffix {
-			r.heal(*suffixViews)
+			r.heal(*suffixViews, ff)
 		}
 		for _, x := range nodes {
 			x.Stop()
@@ -679,20 +695,42 @@ func protoCmd(args []string) error {
 // heal: fix a live quorum M of honest replicas; leaders of later views are members of M (the scheduler
 // relabels nothing: it only fires timers while the current leader is outside M or nothing is pending);
 // every message among M is delivered before any timer of M fires; everything else is lost.
-func (r *run) heal(views int) {
+func (r *run) heal(views int, faultFree bool) {
 	hon := r.honest()
-	// choose M: q honest replicas
+	// choose M: q honest replicas (all replicas in a fault-free run)
 	perm := r.rng.Perm(len(hon))
 	inM := map[hotstuff.ID]bool{}
-	for _, i := range perm[:r.q] {
+	k := r.q
+	if faultFree {
+		k = len(hon)
+	}
+	for _, i := range perm[:k] {
 		inM[hon[i].ID] = true
 		r.live = append(r.live, hon[i].ID)
 	}
 	r.healed = true
-	// messages from before the heal are lost
-	r.net = nil
+	// messages from before the heal are lost (a fault-free run has no "before")
+	if !faultFree {
+		r.net = nil
+	}
 	startView := r.maxHonestView()
-	r.o.emit(obj{"op": "heal", "members": func() []int {
+	// the views after the heal are led by members of the live quorum
+	if r.lmode == "fixed" && !inM[hotstuff.ID(r.fixedLeader)] {
+		// swap a member for the fixed leader so that the premise of the property holds
+		delete(inM, r.live[0])
+		r.live[0] = hotstuff.ID(r.fixedLeader)
+		inM[r.live[0]] = true
+	}
+	if r.lmode != "fixed" {
+		for v := startView + 1; v <= len(*r.script); v++ {
+			(*r.script)[v-1] = int(r.live[v%len(r.live)])
+		}
+	}
+	var newLeaders []int
+	for v := 1; v <= 400; v++ {
+		newLeaders = append(newLeaders, int(r.lr.GetLeader(hotstuff.View(v))))
+	}
+	r.o.emit(obj{"op": "heal", "faultfree": faultFree, "leaders": newLeaders, "members": func() []int {
 		var m []int
 		for id := range inM {
 			m = append(m, int(id))
@@ -700,21 +738,26 @@ func (r *run) heal(views int) {
 		sort.Ints(m)
 		return m
 	}(), "view": startView})
-	budget := 4000
+	budget := 400 * views // scheduler moves of the suffix
 	for budget > 0 {
 		budget--
 		r.topUp()
-		// deliver everything among M first
+		done := true
+		for id := range inM {
+			done = done && int(r.node(id).VS.View()) >= startView+views
+		}
+		if done {
+			break
+		}
+		// deliver what is in flight among M first (one message per move); everything else is lost
 		progressed := false
 		for i := 0; i < len(r.net); {
 			e := r.net[i]
 			if inM[e.from] && inM[e.to] {
 				r.deliverIdx(i)
 				progressed = true
-				i = 0
-				continue
+				break
 			}
-			// lost: to or from outside M
 			r.net = append(r.net[:i], r.net[i+1:]...)
 		}
 		if progressed {
